@@ -10,10 +10,9 @@ observation, satisfies the clause for every state, caller, operation and oracle 
 clause that fires on the code is a disagreement with the statement *and* with the model, never
 an artefact of the clause.
 
-Proved here: C01 `denied_noeffect`, `effect_only_if_granted`, `list_exact`; C02 `reads`, `frame` (and
+Proved here: C01 `denied_noeffect`, `effect_only_if_granted`, `list_exact`; C02 `reads`, `frame`, `delete_version` (and
 `reads_total`, `failed_noop` in Properties/C02.lean); C04 `mem_eq_disk`, `savefail_noop`; C06 `recorded`, `before_effect`, `fail_closed`, `unchanged_silent`;
-C09 `cond` (under the store invariant).  Not yet proved of the model: C01 `changes_only_granted`; C02 `inv`, `put`, `bytes_stable`, `active`,
-`delete_version`; C04 `gen_iff_saved`; C18 `acknowledged_bytes_kept`
+C09 `cond` (under the store invariant).  Not yet proved of the model: C01 `changes_only_granted`; C02 `inv`, `put`, `bytes_stable`, `active`; C04 `gen_iff_saved`; C18 `acknowledged_bytes_kept`
 (their content is stated as theorems about the model in the property files, in other words).
 -/
 namespace Setec.MonSound
@@ -236,5 +235,67 @@ theorem c06_recorded_sound (kv : KV) (c : Caller) (op : Op) (aok sok : Bool) :
     generalize exec kv (.delete n) sok = x at *
     by_cases hg : grantedStd c "delete" n = true <;> cases aok <;>
       simp_all [Res.disclosesValue, entryMatches, entryOf, actionOf, nameOf, versionGiven]
+
+theorem deleteVersion_ok_mem (kv : KV) (n : String) (v : Nat) (ok : Bool) (kv' : KV)
+    (h : deleteVersion kv n v ok = (kv', .ok ())) :
+    ∃ s, kv.secrets[n]? = some s ∧ v ∈ s.versions := by
+  unfold deleteVersion at h
+  split at h; · cases h
+  split at h; · cases h
+  next s hs =>
+  split at h; · cases h
+  split at h; · cases h
+  next old ho =>
+  exact ⟨s, hs, ExtTreeMap.mem_iff_isSome_getElem?.mpr (by simp [ho])⟩
+
+theorem kvErr_ne_done (er : Err) : kvErr er ≠ .done := by cases er <;> simp [kvErr]
+
+theorem c02_delete_version_sound (kv : KV) (c : Caller) (op : Op) (aok sok : Bool) (h : Inv kv) :
+    c02_delete_version (obsOf kv c op aok sok) = true := by
+  have hs := fun op a s => step_outcome kv c op a s
+  cases op with
+  | deleteVersion n v =>
+    simp (disch := simp) only [c02_delete_version, obsOf, hs, outcome, wellFormed, actionOf, nameOf, exec]
+    by_cases hg : grantedStd c "delete" n = true
+    · cases aok with
+      | false => simp [hg]; split <;> simp
+      | true =>
+        simp only [hg]
+        by_cases hp : hasPrefix Cfg.std n = true
+        · simp [hp]; split <;> simp
+        · simp only [hp]
+          cases hd : deleteVersion kv n v sok with
+          | mk kv' r =>
+            cases r with
+            | error er =>
+              have := deleteVersion_error_noop kv n v sok er kv' hd
+              subst this
+              simp [kvErr_ne_done]
+              split <;> rfl
+            | ok u =>
+              obtain ⟨s, s', h1, h2, hna, hver, hact, hlat⟩ := deleteVersion_ok kv n v sok kv' hd
+              obtain ⟨s0, h0, hmem⟩ := deleteVersion_ok_mem kv n v sok kv' hd
+              rw [h1] at h0; cases h0
+              have hc : s.versions.contains v = true := by simpa using hmem
+              have hnc : s'.versions.contains v = false := by rw [hver]; simp
+              simp [h1, h2, hna, hc, hnc, hact, hlat]
+    · simp [hg]; split <;> simp
+  | delete n =>
+    simp (disch := simp) only [c02_delete_version, obsOf, hs, outcome, wellFormed, actionOf, nameOf, exec]
+    by_cases hg : grantedStd c "delete" n = true
+    · cases aok with
+      | false => simp [hg]
+      | true =>
+        simp only [hg]
+        by_cases hp : hasPrefix Cfg.std n = true
+        · simp [hp]
+        · simp only [hp]
+          cases hd : deleteSecret kv n sok with
+          | mk kv' r =>
+            cases r with
+            | error er => simp [kvErr_ne_done]
+            | ok u => simp [deleteSecret_gone kv n kv' sok hd]
+    · simp [hg]
+  | _ => simp [c02_delete_version, obsOf]
 
 end Setec.MonSound
